@@ -83,11 +83,13 @@ def args2cmd (args : List Str) : Str := cmdLoop [] args
 
 /-! ## escape_shell_args -/
 
-/-- `escape_shell_args(args, style=style)`; the empty string stands for `style=None` (or `''`) on a
-    platform other than win32; `none` = ValueError -/
-def escapeShellArgs (style : Str) (args : List Str) : Option Str :=
-  if style.isEmpty || style = ['s', 'h'] then some (args2sh args)
-  else if style = ['c', 'm', 'd'] then some (args2cmd args)
+/-- `escape_shell_args(args, style=style)`; the empty string stands for a falsy style (`None` or `''`),
+    which the code replaces by `'cmd'` when `sys.platform == 'win32'` (`win32 = true`) and by `'sh'`
+    otherwise; `none` = ValueError -/
+def escapeShellArgs (style : Str) (args : List Str) (win32 : Bool := false) : Option Str :=
+  let st := if style.isEmpty then (if win32 then ['c', 'm', 'd'] else ['s', 'h']) else style
+  if st = ['s', 'h'] then some (args2sh args)
+  else if st = ['c', 'm', 'd'] then some (args2cmd args)
   else none
 
 /-! ## reference lexer 1: POSIX sh word splitting, nothing expanded -/
@@ -222,11 +224,12 @@ def lmax : List Nat → Nat
   | [] => 0
   | x :: xs => xs.foldl max x
 
-/-- `'{:d}{}{:d}'.format(min(contig_range), range_delim, max(contig_range))` -/
-def fmtRange (cr : List Nat) : Str := toDigits (lmin cr) ++ '-' :: toDigits (lmax cr)
+/-- `'{:d}{}{:d}'.format(min(contig_range), range_delim, max(contig_range))`
+    (`rd` = `range_delim`, a one-character string in the model) -/
+def fmtRange (rd : Char) (cr : List Nat) : Str := toDigits (lmin cr) ++ rd :: toDigits (lmax cr)
 
 /-- one iteration of `for x in sorted(int_list)`: state = (`output`, `contig_range`) -/
-def fmtStep (st : List Str × List Nat) (x : Nat) : List Str × List Nat :=
+def fmtStep (rd : Char) (st : List Str × List Nat) (x : Nat) : List Str × List Nat :=
   match st.2 with
   | [] => (st.1, [x])
   | [a] =>
@@ -235,21 +238,22 @@ def fmtStep (st : List Str × List Nat) (x : Nat) : List Str × List Nat :=
     else st
   | a :: b :: r =>
     if x = (a :: b :: r).getLastD 0 + 1 then (st.1, st.2 ++ [x])
-    else if (a :: b :: r).getLastD 0 + 1 < x then (st.1 ++ [fmtRange st.2], [x])
+    else if (a :: b :: r).getLastD 0 + 1 < x then (st.1 ++ [fmtRange rd st.2], [x])
     else st
 
 /-- the `else:` clause of the `for` loop ("handle the last value") -/
-def fmtFinish (st : List Str × List Nat) : List Str :=
+def fmtFinish (rd : Char) (st : List Str × List Nat) : List Str :=
   match st.2 with
   | [] => st.1
   | [a] => st.1 ++ [toDigits a]
-  | _ => st.1 ++ [fmtRange st.2]
+  | _ => st.1 ++ [fmtRange rd st.2]
 
-def fmtTokens (l : List Nat) : List Str := fmtFinish ((isort l).foldl fmtStep ([], []))
+def fmtTokens (rd : Char) (l : List Nat) : List Str := fmtFinish rd ((isort l).foldl (fmtStep rd) ([], []))
 
-/-- `format_int_list(int_list, delim_space=sp)` with the default delimiters -/
-def formatIntList (l : List Nat) (sp : Bool := false) : Str :=
-  join (if sp then [',', ' '] else [',']) (fmtTokens l)
+/-- `format_int_list(int_list, delim=d, range_delim=rd, delim_space=sp)`; the delimiters are
+    one-character strings in the model (defaults `,` and `-`) -/
+def formatIntList (l : List Nat) (sp : Bool := false) (d : Char := ',') (rd : Char := '-') : Str :=
+  join (if sp then [d, ' '] else [d]) (fmtTokens rd l)
 
 /-- `s.split(d)` for a one-character delimiter -/
 def splitOn (d : Char) : Str → List Str
@@ -270,9 +274,9 @@ def mapM? {α β : Type} (f : α → Option β) : List α → Option (List β)
     | _, _ => none
 
 /-- one `x` of `range_string.strip().split(delim)`: the integers it contributes, `none` = ValueError -/
-def parseTok (t : Str) : Option (List Nat) :=
-  if t.contains '-' then
-    match mapM? pyInt? (splitOn '-' t) with
+def parseTok (rd : Char) (t : Str) : Option (List Nat) :=
+  if t.contains rd then
+    match mapM? pyInt? (splitOn rd t) with
     | some lims => some (rangeIncl (lmin lims) (lmax lims))
     | none => none
   else if t.isEmpty then some []
@@ -280,21 +284,22 @@ def parseTok (t : Str) : Option (List Nat) :=
     | some n => some [n]
     | none => none
 
-/-- `parse_int_list(range_string)` with the default delimiters -/
-def parseIntList (s : Str) : Option (List Nat) :=
-  match mapM? parseTok (splitOn ',' (strip s)) with
+/-- `parse_int_list(range_string, delim=d, range_delim=rd)` -/
+def parseIntList (s : Str) (d : Char := ',') (rd : Char := '-') : Option (List Nat) :=
+  match mapM? (parseTok rd) (splitOn d (strip s)) with
   | some ls => some (isort ls.flatten)
   | none => none
 
-/-- `complement_int_list(range_string, range_start, range_end)`; `e = none` is `range_end=None` -/
-def complementIntList (s : Str) (a : Int) (e : Option Int) : Option Str :=
-  match parseIntList s with
+/-- `complement_int_list(range_string, range_start, range_end, delim=d, range_delim=rd)`;
+    `e = none` is `range_end=None` -/
+def complementIntList (s : Str) (a : Int) (e : Option Int) (d : Char := ',') (rd : Char := '-') : Option Str :=
+  match parseIntList s d rd with
   | none => none
   | some l =>
     let e' : Int := match e with
       | some e => e
       | none => if l.isEmpty then a else (lmax l : Int) + 1
-    some (formatIntList ((List.range e'.toNat).filter fun x => !l.contains x && !decide ((x : Int) < a)))
+    some (formatIntList ((List.range e'.toNat).filter fun x => !l.contains x && !decide ((x : Int) < a)) false d rd)
 
 /-- one `bounds` of `range_string.split(',')` in `int_ranges_from_int_list` -/
 def boundsTok (b : Str) : Option (Nat × Nat) :=
@@ -308,9 +313,10 @@ def boundsTok (b : Str) : Option (Nat × Nat) :=
     | some x => some (x, x)
     | none => none
 
-/-- `int_ranges_from_int_list(range_string)` -/
-def intRanges (s : Str) : Option (List (Nat × Nat)) :=
-  match parseIntList s with
+/-- `int_ranges_from_int_list(range_string, delim=d, range_delim=rd)`: the delimiters are used for
+    reading only; the normalised text is written and re-read with the defaults -/
+def intRanges (s : Str) (d : Char := ',') (rd : Char := '-') : Option (List (Nat × Nat)) :=
+  match parseIntList s d rd with
   | none => none
   | some l =>
     let t := formatIntList l
